@@ -231,9 +231,15 @@ def monitor (cfgF : Fields) (ops : List (Nat × Fields)) : String :=
       some { key := k, op := .ins v, durable := d, acked := d.bind (ackAfter i) }
     | "rm" =>
       -- durable with the tombstone log only: the tombstone page written by the flush that follows
-      let d : Option Nat := if tomb then (writes.find? fun w => w.id ≥ (counts[i - 1]?).getD 0 && (match w.pl with
-          | .tomb slots => slots.any fun s => s.2.1 = k
-          | _ => false)).map (·.id + 1) else none
+      -- (if no such page is ever written, the delete still counts as acknowledged by the next completed
+      -- wait(): from then on the key must not come back)
+      let d : Option Nat := if tomb then
+          match (writes.find? fun w => w.id ≥ (counts[i - 1]?).getD 0 && (match w.pl with
+            | .tomb slots => slots.any fun s => s.2.1 = k
+            | _ => false)).map (·.id + 1) with
+          | some x => some x
+          | none => counts[i]?
+        else none
       some { key := k, op := .rm, durable := d, acked := d.bind (ackAfter i) }
     | _ => none
   let versionsOf (k : Nat) : List Nat := evs.filterMap fun e => match e.op with
